@@ -89,6 +89,7 @@ func rwBodyOf(n, w, seq int, got []byte) []byte {
 }
 
 func cmdRawWrite(f hx.Flags, r *hx.Result) {
+	refSetNo := 0
 	rng := hx.Rand(12)
 	console := sys.InstallConsole()
 	tmp, err := os.MkdirTemp(os.Getenv("VERIF_SCRATCH"), "rw-")
@@ -161,9 +162,16 @@ func cmdRawWrite(f hx.Flags, r *hx.Result) {
 					if strings.HasSuffix(kind, "Layout") {
 						ex["layout.type"] = "JSONLayout"
 					}
-					// reference level settings must not matter for raw writes
-					cfg.AddLogger("lg", typ, "WARN", "some_tag",
-						[]sys.Ref{{Ref: "r1"}, {Ref: "r2", Level: "ERROR~FATAL"}, {Ref: "r3", Level: "TOP"}}, true, ex)
+					// reference level settings must not matter for raw writes: open, bounded, top-only, and ranges
+					// that admit no event at all (the natural way to declare a raw-output-only sink)
+					refSets := [][]sys.Ref{
+						{{Ref: "r1"}, {Ref: "r2", Level: "ERROR~FATAL"}, {Ref: "r3", Level: "TOP"}},
+						{{Ref: "r1", Level: "MAX"}, {Ref: "r2", Level: "WARN~WARN"}, {Ref: "r3", Level: "ERROR~INFO"}},
+						{{Ref: "r1", Level: "NONE~NONE"}, {Ref: "r2"}, {Ref: "r3", Level: "INFO~INFO"}},
+					}
+					refSetNo++
+					desc["reference_levels"] = refSetNo % len(refSets)
+					cfg.AddLogger("lg", typ, "WARN", "some_tag", refSets[refSetNo%len(refSets)], true, ex)
 				}
 				var rerr error
 				if p := hx.Catch(func() { rerr = log.Refresh(cfg.Map(nil)) }); p != nil || rerr != nil {
